@@ -61,7 +61,19 @@ def grid_digest(g):
         sym = str(g.symmetry)
     except Exception:  # noqa: BLE001
         sym = str(red.symmetry)
-    return [type(g).__name__, _plain(red.unitSteps), _plain(red.bounds), _plain(red.unitStepLimits), _plain(red.offset), gt, sym]
+    # what the grid *does*, independently of its constructor arguments: the offset property and
+    # the centre of a few sample cells
+    try:
+        off = _plain(g.offset)
+    except Exception:  # noqa: BLE001
+        off = None
+    cells = []
+    for idx in ((0, 0, 0), (1, 0, 0), (0, 1, 0), (2, -1, 0), (0, 0, 1)):
+        try:
+            cells.append([float(x) for x in g.getCoordinates(idx)])
+        except Exception:  # noqa: BLE001 - index outside an axial / bounded grid
+            cells.append(None)
+    return [type(g).__name__, _plain(red.unitSteps), _plain(red.bounds), _plain(red.unitStepLimits), _plain(red.offset), gt, sym, off, cells]
 
 
 def obj_digest(o, light=False):
